@@ -8,6 +8,8 @@ import (
 	"net/http"
 	"net/http/httptest"
 	"sync"
+
+	"golang.org/x/net/http/httpguts"
 )
 
 // WireTransport is an in-process ht.Client: the request is serialised with
@@ -31,6 +33,17 @@ type WireRecord struct {
 }
 
 func (t *WireTransport) Do(req *http.Request) (*http.Response, error) {
+	// what http.Transport checks before it sends anything (net/http/transport.go roundTrip)
+	for k, vv := range req.Header {
+		if !httpguts.ValidHeaderFieldName(k) {
+			return nil, fmt.Errorf("net/http: invalid header field name %q", k)
+		}
+		for _, v := range vv {
+			if !httpguts.ValidHeaderFieldValue(v) {
+				return nil, fmt.Errorf("net/http: invalid header field value for %q", k)
+			}
+		}
+	}
 	var buf bytes.Buffer
 	// Request.Write needs a host
 	if req.URL.Host == "" && req.Host == "" {
